@@ -24,6 +24,9 @@ type ConcCase struct {
 	ErrHandler bool       `json:"err_handler"`
 	Honour     bool       `json:"honour,omitempty"` // the store refuses calls whose context is done
 	Procs      int        `json:"procs"`
+	// EHDelayUs: the error handler takes this long, so reports of failures
+	// from different publishers are in progress at the same time.
+	EHDelayUs int `json:"eh_delay_us,omitempty"`
 }
 
 // RunConc: whatever the interleaving, every publish is delivered, reaches
@@ -84,11 +87,22 @@ func runConc(c *ConcCase) *vkit.Outcome {
 		return storekit.Action{}
 	}
 	reports := map[int]int{}
+	inReport, maxInReport := 0, 0
 	opts := []eventbus.Option{eventbus.WithStore(store), eventbus.WithPersistenceTimeout(2 * time.Millisecond)}
 	if c.ErrHandler {
 		opts = append(opts, eventbus.WithPersistenceErrorHandler(func(ev any, _ reflect.Type, err error) {
 			mu.Lock()
 			reports[idOfAny(ev)]++
+			inReport++
+			if inReport > maxInReport {
+				maxInReport = inReport
+			}
+			mu.Unlock()
+			if c.EHDelayUs > 0 {
+				time.Sleep(time.Duration(c.EHDelayUs) * time.Microsecond)
+			}
+			mu.Lock()
+			inReport--
 			mu.Unlock()
 		}))
 	}
@@ -160,6 +174,11 @@ func runConc(c *ConcCase) *vkit.Outcome {
 		if k == "block" || k == "slow" {
 			queued = true
 		}
+	}
+	if maxInReport >= 5 {
+		o.Class("five_or_more_failure_reports_in_progress_at_once")
+	} else if maxInReport >= 2 {
+		o.Class("two_or_more_failure_reports_in_progress_at_once")
 	}
 	if len(c.Publishers) >= 2 && queued {
 		o.Nontrivial = true
